@@ -12,55 +12,93 @@ R_X86_64_64, R_X86_64_PLT32, R_X86_64_GOTPCREL, R_X86_64_GOTTPOFF = 1, 4, 9, 22
 
 BINDS = ["local", "global", "weak", "unique"]
 VISES = ["default", "protected", "hidden", "internal"]
-TYPES = ["func", "object", "tls", "notype", "abs"]
+TYPES = ["func", "object", "tls", "notype", "abs", "common"]
 FATES = ["retained", "gc", "xl-all", "xl-lib", "vs-local", "dyn-list", "eds"]
-DUPS = ["single", "dup"]
-AXES = [BINDS, VISES, TYPES, FATES, DUPS]
+# The non-winning (second) definition of the same name: absent, in pre.o BEFORE the winner's object
+# on the command line, or in dup.o AFTER it; and its own visibility.  Its binding follows from the
+# winner's type: a smaller common when the winner is a common, else weak.  (A gnu-unique definition
+# can never lose under GNU ld: against global / gnu-unique it is a multiple-definition error,
+# against weak it wins -- so "gnu-unique involved" is covered with the winner being gnu-unique.)
+DPOS = ["none", "before", "after"]
+DVIS = ["default", "protected", "hidden", "internal"]
+AXES = [BINDS, VISES, TYPES, FATES, DPOS, DVIS]
 NA = len(AXES)
 NSLOT = 4
 BIND_NUM = {"local": STB_LOCAL, "global": STB_GLOBAL, "weak": STB_WEAK, "unique": STB_GNU_UNIQUE}
 VIS_NUM = {"default": STV_DEFAULT, "protected": STV_PROTECTED, "hidden": STV_HIDDEN,
            "internal": STV_INTERNAL}
 TYPE_NUM = {"func": STT_FUNC, "object": STT_OBJECT, "tls": STT_TLS, "notype": STT_NOTYPE,
-            "abs": STT_NOTYPE}
+            "abs": STT_NOTYPE, "common": STT_OBJECT}
 ARCHIVE_FATES = ("xl-all", "xl-lib")
+# ELF gABI / GNU ld (elf_merge_st_other): the most constraining visibility of all definitions wins.
+VIS_RANK = {"internal": 0, "hidden": 1, "protected": 2, "default": 3}
+
+
+def merged_visibility(*vs):
+    return min(vs, key=lambda v: VIS_RANK[v])
 
 
 def legal(sym):
-    """Illegal combinations, skipped by rule: a local symbol with non-default visibility; a second
-    (weak, losing) definition in dup.o for anything but a global / weak symbol of main.o.  Partial
-    tuples (None for an axis not yet chosen) are legal when some completion is."""
-    b, v, _t, f, d = sym
-    if b == "local" and v not in (None, "default"):
+    """Complete tuples skipped by rule:
+      * a local symbol with non-default visibility or with a second definition;
+      * a common symbol that is not STB_GLOBAL;
+      * a second definition for a symbol of the --exclude-libs archive;
+      * a second (weak) definition BEFORE a weak winner (it would win itself): the winner of
+        `before` is global or gnu-unique; after it, global / weak / gnu-unique (commons: the larger
+        one wins in either order);
+      * dpos = none with dvis != default (canonical form, the axis is meaningless there)."""
+    b, v, t, f, dp, dv = sym
+    if b == "local" and (v != "default" or dp != "none"):
         return False
-    if d == "dup" and (b in ("local", "unique") or f in ARCHIVE_FATES):
+    if t == "common" and b != "global":
+        return False
+    if dp == "none":
+        return dv == "default"
+    if f in ARCHIVE_FATES:
+        return False
+    if t != "common" and dp == "before" and b not in ("global", "unique"):
         return False
     return True
 
 
+LEGAL = [s for s in itertools.product(*AXES) if legal(s)]
+_PROJ = {}
+
+
+def legal_partial(sym):
+    """sym with None for axes not chosen yet: legal iff some complete legal tuple extends it
+    (decided exactly, by projection of the list of legal tuples)."""
+    axes = tuple(a for a in range(NA) if sym[a] is not None)
+    pr = _PROJ.get(axes)
+    if pr is None:
+        pr = _PROJ[axes] = {tuple(t[a] for a in axes) for t in LEGAL}
+    return tuple(sym[a] for a in axes) in pr
+
+
 def all_symbol_tuples():
-    return [s for s in itertools.product(*AXES) if legal(s)]
+    return list(LEGAL)
 
 
 def _legal_idx(vals):
-    return legal(tuple(None if x is None else AXES[a][x] for a, x in enumerate(vals)))
+    return legal_partial(tuple(None if x is None else AXES[a][x] for a, x in enumerate(vals)))
 
 
 # ------------------------------------------------------------------------------ covering array
 def covering_array(strength):
     """Deterministic greedy (AETG-style, no randomness) covering array of the given strength over
-    the 16 factors (slot, axis), slot in 0..3, axis in bind/vis/type/fate, honouring `legal` inside
-    every slot.  Construction: keep the set U of still-uncovered legal value combinations of every
-    `strength`-subset of factors; each new row is seeded with the first element of U in
-    lexicographic (factor-subset, values) order, then the remaining factors are fixed one at a time
-    in index order, each to the value that covers the most elements of U together with the factors
-    fixed so far (ties: the first value in the cyclic order starting at row_number mod levels);
-    values that would make a slot illegal are not considered.  Returns rows of 4 symbol tuples."""
+    the 24 factors (slot, axis), slot in 0..3, axis in bind/vis/type/fate/dpos/dvis, honouring
+    `legal` inside every slot.  Construction: keep the set U of still-uncovered legal value
+    combinations of every `strength`-subset of factors; each new row is seeded with the first element
+    of U in lexicographic (factor-subset, values) order, then the remaining factors are fixed one at
+    a time in index order, each to the value that covers the most elements of U together with the
+    factors fixed so far (ties: the first value in the cyclic order starting at row_number mod
+    levels); values that would leave a slot without a legal completion are not considered.
+    Returns rows of 4 symbol tuples."""
     nf = NSLOT * NA
     levels = [len(AXES[f % NA]) for f in range(nf)]
 
-    def ok_partial(row):
-        return all(_legal_idx(row[NA * s:NA * s + NA]) for s in range(NSLOT))
+    def ok_partial(row, slots=range(NSLOT)):
+        return all(_legal_idx(row[NA * s:NA * s + NA]) for s in slots)
 
     unc = {}
     for combo in itertools.combinations(range(nf), strength):
@@ -69,7 +107,7 @@ def covering_array(strength):
             row = [None] * nf
             for f, x in zip(combo, vs):
                 row[f] = x
-            if ok_partial(row):
+            if ok_partial(row, {f // NA for f in combo}):
                 vals.add(vs)
         unc[combo] = vals
     order = sorted(unc)
@@ -94,7 +132,7 @@ def covering_array(strength):
             for k in range(levels[f]):
                 x = (start + k) % levels[f]
                 row[f] = x
-                if not ok_partial(row):
+                if not ok_partial(row, (f // NA,)):
                     continue
                 gain = 0
                 for others in itertools.combinations(fixed, strength - 1):
@@ -111,20 +149,40 @@ def covering_array(strength):
     return rows
 
 
-def tuple_cover_rows():
-    """Rows in which every legal per-symbol tuple (all axes jointly) occurs once: the legal
-    tuples in lexicographic order, dealt to rows of 4 (the last row is padded with the first
-    tuples)."""
-    ts = all_symbol_tuples()
+def _deal(ts):
+    """Tuples dealt to rows of 4 with stride ceil(n/4) (row i = ts[i], ts[i+R], ts[i+2R],
+    ts[i+3R]; missing places are filled with the first tuples), so that the four symbols of a
+    program differ in the leading axes."""
+    n = len(ts)
+    r = -(-n // NSLOT)
     rows = []
-    for i in range(0, len(ts), NSLOT):
-        r = ts[i:i + NSLOT]
-        k = 0
-        while len(r) < NSLOT:
-            r.append(ts[k])
-            k += 1
-        rows.append(tuple(r))
+    for i in range(r):
+        row = [ts[i + k * r] if i + k * r < n else ts[(i + k) % n] for k in range(NSLOT)]
+        rows.append(tuple(row))
     return rows
+
+
+def tuple_cover_rows():
+    """Rows in which every legal per-symbol tuple WITHOUT a second definition occurs once."""
+    return _deal([t for t in LEGAL if t[4] == "none"])
+
+
+DUP_SUB_TYPES_RETAINED = ("func", "object", "tls", "notype", "abs", "common")
+DUP_SUB_TYPES_GC = ("func", "object", "common")
+
+
+def dup_subfamily_rows():
+    """The dedicated duplicate-definition sub-family, exhaustive over
+      position of the non-winning definition {before, after} x its visibility (4) x the winner's
+      visibility (4) x the winner's binding (every legal one: global / gnu-unique before, global /
+      weak / gnu-unique after; global for commons) x type {func, object, tls, notype, abs (loser
+      weak), common (loser a smaller common)} with fate retained, and {func, object, common} with
+      fate gc;
+    four such symbols per program."""
+    ts = [t for t in LEGAL if t[4] != "none" and
+          ((t[3] == "retained" and t[2] in DUP_SUB_TYPES_RETAINED) or
+           (t[3] == "gc" and t[2] in DUP_SUB_TYPES_GC))]
+    return _deal(ts)
 
 
 def uncovered(rows, strength):
@@ -138,7 +196,7 @@ def uncovered(rows, strength):
             syms = {}
             for f, x in zip(combo, vs):
                 syms.setdefault(f // NA, {})[f % NA] = x
-            if not all(legal(tuple(d.get(a) for a in range(NA))) for d in syms.values()):
+            if not all(legal_partial(tuple(d.get(a) for a in range(NA))) for d in syms.values()):
                 continue
             if vs not in seen:
                 missing += 1
@@ -152,6 +210,7 @@ def marker(tag, slot):
 
 
 ABS_VALUE = [0xA110, 0xA220, 0xA330, 0xA440]
+COMMON_SIZE = 64
 SEC_OF_TYPE = {"func": (".text", SHF_ALLOC | SHF_EXECINSTR), "object": (".data", SHF_ALLOC | SHF_WRITE),
                "tls": (".tdata", SHF_ALLOC | SHF_WRITE | SHF_TLS), "notype": (".rodata", SHF_ALLOC)}
 
@@ -163,6 +222,11 @@ def _define(o, slot, sym, tag, bind=None, extra=0):
     if t == "abs":
         return o.symbol(name, section="abs", value=ABS_VALUE[slot] + extra, size=0, bind=bind,
                         type=STT_NOTYPE, vis=VIS_NUM[v])
+    if t == "common":
+        # winner: 64 + 8 * slot bytes, alignment 16; the non-winning one (extra != 0): 8 bytes
+        return o.symbol(name, section="common", value=8 if extra else 16,
+                        size=8 if extra else COMMON_SIZE + 8 * slot, bind=STB_GLOBAL,
+                        type=STT_OBJECT, vis=VIS_NUM[v])
     pre, flags = SEC_OF_TYPE[t]
     sec = o.section(f"{pre}.{name}", flags=flags, align=8, data=marker(tag, slot) + bytes(8))
     return o.symbol(name, section=sec, value=0, size=8 + slot + extra, bind=bind,
@@ -192,10 +256,11 @@ def _absrefs_section(o, syms, code, relocs):
 
 
 def build_program(row, imports):
-    """-> (main.o bytes, member m.o bytes or None, dup.o bytes or None, expectations).
-    expectations: per symbol name a dict(slot, bind, vis, type, fate, dup, where
-    ('main'|'archive'), marker|None, value|None, size) describing the WINNING definition (a dup.o
-    definition is weak and comes after main.o on the command line, so it always loses)."""
+    """-> (main.o, m.o | None, pre.o | None, dup.o | None, expectations), objects as bytes.
+    Command-line order: pre.o main.o dup.o libx.a libimp.so.  expectations: per symbol name a
+    dict(slot, bind, vis, own_vis, vis_from, type, fate, dup, where ('main'|'archive'),
+    marker|None, value|None, size) describing the WINNING definition; `vis` is the most
+    constraining visibility of all definitions of the name (`vis_from` says whose it is)."""
     unique = any(s[0] == "unique" for s in row)
     main = ElfObject("x86_64", osabi=3 if unique else 0)
     main.symbol("main.c", section="abs", bind=STB_LOCAL, type=STT_FILE)
@@ -207,22 +272,34 @@ def build_program(row, imports):
         member = ElfObject("x86_64", osabi=3 if unique else 0)
         member.symbol("m.c", section="abs", bind=STB_LOCAL, type=STT_FILE)
         mcode, mrelocs, mabs = bytearray(), [], []
-    dup = None
+    others = {"before": None, "after": None}
     for i, s in enumerate(row):
-        b, v, t, f, dp = s
+        b, v, t, f, dp, dv = s
         o = member if i in arch_slots else main
         tag = 2 if i in arch_slots else 1
         symobj = _define(o, i, s, tag)
-        if dp == "dup":
-            if dup is None:
-                dup = ElfObject("x86_64")
-                dup.symbol("dup.c", section="abs", bind=STB_LOCAL, type=STT_FILE)
-            _define(dup, i, s, 4, bind=STB_WEAK, extra=16)
-        exp[f"s{i}"] = dict(slot=i, bind=b, vis=v, type=t, fate=f, dup=(dp == "dup"),
+        vis, vis_from = v, "winner"
+        loser_marker = loser_value = None
+        if dp != "none":
+            ltag = 4 if dp == "after" else 5
+            loser_marker = None if t in ("abs", "common") else marker(ltag, i).hex()
+            loser_value = ABS_VALUE[i] + 16 if t == "abs" else None
+            if others[dp] is None:
+                others[dp] = ElfObject("x86_64")
+                others[dp].symbol("pre.c" if dp == "before" else "dup.c", section="abs",
+                                  bind=STB_LOCAL, type=STT_FILE)
+            _define(others[dp], i, (b, dv, t), 4 if dp == "after" else 5, bind=STB_WEAK, extra=16)
+            vis = merged_visibility(v, dv)
+            if vis != v:
+                vis_from = dp
+        exp[f"s{i}"] = dict(slot=i, bind=b, vis=vis, own_vis=v, vis_from=vis_from, type=t, fate=f,
+                            dup=dp if dp != "none" else False,
+                            loser_marker=loser_marker, loser_value=loser_value,
                             where="archive" if i in arch_slots else "main",
-                            marker=None if t == "abs" else marker(tag, i).hex(),
+                            marker=None if t in ("abs", "common") else marker(tag, i).hex(),
                             value=ABS_VALUE[i] if t == "abs" else None,
-                            size=0 if t == "abs" else 8 + i)
+                            size=0 if t == "abs" else
+                            (COMMON_SIZE + 8 * i if t == "common" else 8 + i))
         if f == "gc":
             continue
         if i in arch_slots:
@@ -241,8 +318,8 @@ def build_program(row, imports):
         xa = main.symbol("xanchor")
         relocs.append((len(code) + 1, R_X86_64_PLT32, xa, -4))
         code += b"\xe8\0\0\0\0"
-        exp["xanchor"] = dict(slot=None, bind="global", vis="default", type="func", fate="xanchor",
-                              dup=False, where="archive", marker=marker(3, 9).hex(), value=None,
+        exp["xanchor"] = dict(slot=None, bind="global", vis="default", own_vis="default",
+                              vis_from="winner", type="func", fate="xanchor", dup=False, where="archive", marker=marker(3, 9).hex(), value=None,
                               size=8 + len(mcode))
     _absrefs_section(main, absrefs, code, relocs)
     if imports:
@@ -259,12 +336,14 @@ def build_program(row, imports):
     for off, rt, sym, add in relocs:
         main.reloc(ts, 8 + off, rt, sym, add)
     main.note_gnu_stack()
-    exp["_start"] = dict(slot=None, bind="global", vis="default", type="func", fate="entry",
-                         dup=False, where="main", marker=marker(3, 8).hex(), value=None, size=8 + len(code))
-    if dup is not None:
-        dup.note_gnu_stack()
+    exp["_start"] = dict(slot=None, bind="global", vis="default", own_vis="default",
+                         vis_from="winner", type="func", fate="entry", dup=False, where="main", marker=marker(3, 8).hex(), value=None, size=8 + len(code))
+    for o in others.values():
+        if o is not None:
+            o.note_gnu_stack()
     return (main.to_bytes(), member.to_bytes() if member is not None else None,
-            dup.to_bytes() if dup is not None else None, exp)
+            others["before"].to_bytes() if others["before"] is not None else None,
+            others["after"].to_bytes() if others["after"] is not None else None, exp)
 
 
 def import_library_object():
